@@ -126,6 +126,11 @@ func (g *Gen) leaf(t Ty) *Node {
 		return g.use(QuoteSym(g.pick(QuotedSyms[:3])))
 	case 3:
 		return g.use(Bool(g.R.Bool()))
+	case 4:
+		if !g.Scopey {
+			// a float literal (a value like any other: true in tests, element of lists and arrays)
+			return g.use(Flt([]int64{0, 0, 0, 1, 3, -3, 2, 4}[g.R.Intn(8)]))
+		}
 	}
 	return g.intLit()
 }
@@ -369,8 +374,15 @@ func (g *Gen) forLoop(d int) *Node {
 	}
 	n := int64(g.R.Intn(4))
 	g.left -= 8
+	// while-style: nil init clause, the counter lives in the enclosing scope (a def before the loop)
+	while := g.chance(15)
+	if while {
+		g.declare(v, binding{TInt, -1})
+	}
 	g.push()
-	g.declare(v, binding{TInt, -1})
+	if !while {
+		g.declare(v, binding{TInt, -1})
+	}
 	g.loops = append(g.loops, label)
 	var body []*Node
 	k := g.nbody()
@@ -382,6 +394,9 @@ func (g *Gen) forLoop(d int) *Node {
 	step := Set(v, CallN("+", Var(v), Int(1)))
 	if g.chance(10) {
 		step = Def(v, CallN("+", Var(v), Int(1)))
+	}
+	if while {
+		return Begin(Def(v, Int(0)), For(label, Nil(), CallN("<", Var(v), Int(n)), Set(v, CallN("+", Var(v), Int(1))), body...))
 	}
 	return For(label, Def(v, Int(0)), CallN("<", Var(v), Int(n)), step, body...)
 }
